@@ -412,7 +412,9 @@ PairClauses(S, j) ==
               <<Tr.pairname \o ".store",  S.d = T.d /\ S.lastId = T.lastId /\ S.nT = T.nT /\ S.nL = T.nL
                                           /\ S.reset = T.reset>>,
               <<"bind.pair.writes", S.w = T.w>>,
-              <<Tr.pairname \o ".answers", (Has(S.q, "ans") /\ Has(T.q, "ans")) => S.q.ans = T.q.ans>>
+              <<Tr.pairname \o ".answers", (Has(S.q, "ans") /\ Has(T.q, "ans")) => S.q.ans = T.q.ans>>,
+              \* public generators started before the request and advanced after it (digest of what they yield)
+              <<Tr.pairname \o ".generators", (Has(S.q, "gens") /\ Has(T.q, "gens")) => S.q.gens = T.q.gens>>
             >>)
 
 (* C11: closing and reopening changes nothing; clear gives a fresh index *)
